@@ -280,6 +280,30 @@ func genStream(g *rand.Rand, c *CallSpec, b Bias, classU bool) {
 		c.CProg = []Op{{K: 'f', A: a, B: []Op{{K: 'R'}}}}
 		c.Early, c.EarlyK = true, k
 	}
+	// ordinary client code half-closes twice now and then (an explicit CloseSend next
+	// to a deferred one): the second call is legal and puts nothing on the wire
+	if g.IntN(8) == 0 {
+		c.CProg = dupClose(c.CProg)
+	}
+}
+
+// dupClose repeats the first half-close of a client program right after itself.
+func dupClose(prog []Op) []Op {
+	for i, op := range prog {
+		if op.K == 'c' {
+			out := append([]Op{}, prog[:i+1]...)
+			out = append(out, Op{K: 'c'})
+			return append(out, prog[i+1:]...)
+		}
+		if op.K == 'f' {
+			if a := dupClose(op.A); len(a) != len(op.A) {
+				out := append([]Op{}, prog...)
+				out[i].A = a
+				return out
+			}
+		}
+	}
+	return prog
 }
 
 func isEarlyRet(c *CallSpec) (bool, int) {
